@@ -140,8 +140,15 @@ def setsPrice (w : World) : Op → Option Coin
   | _ => none
 
 /-- amount: every successful price-setting operation sets a price ≥ the factory minimum read at that step —
-in EVERY state `w`, in particular in every state reachable by any history (next theorem). -/
-theorem C07_floor (w w' : World) (op : Op) (c : Coin)
+in EVERY state `w`, in particular in every state reachable by any history (next theorem).
+
+PARTIAL. The full clause reads "no price-setting operation (minter creation, …) succeeds with a price below the factory
+minimum in force": for `create`, `setsPrice` is the PUBLIC price only. The unchanged code (factory `execute_create_minter`
++ minter `instantiate`) never compares the whitelist NAMED IN `CreateMinter` with the floor or its denom — only
+`SetWhitelist` does — so creation can put a whitelist price below the minimum in force:
+`C07_create_whitelist_unchecked_counterexample` (replayed on the real contracts, corpus/C07/create-whitelist-below-floor.json).
+What is missing for the full clause: `createWlOk` would have to contain the two comparisons `setWhitelist` makes. -/
+theorem C07_floor_partial (w w' : World) (op : Op) (c : Coin)
     (hok : step w op = .ok w') (hset : setsPrice w op = some c) :
     w.fac.minPrice.amount ≤ c.amount := by
   cases op <;> simp only [setsPrice, step] at hset hok <;> try (simp at hset; done)
@@ -153,6 +160,36 @@ theorem C07_floor (w w' : World) (op : Op) (c : Coin)
     simp [hm] at hset; subst hset; exact h
   · obtain ⟨m, x, _, hx, _, _, _, _, h, _⟩ := swl_ok hok
     simp [hx] at hset; subst hset; exact h
+
+/-- the name the composite refinement (`Props/CompositeVending.lean`) uses for `C07_floor_partial` -/
+theorem C07_floor (w w' : World) (op : Op) (c : Coin)
+    (hok : step w op = .ok w') (hset : setsPrice w op = some c) :
+    w.fac.minPrice.amount ≤ c.amount :=
+  C07_floor_partial w w' op c hok hset
+
+/-- The creation gap, on the model of the unchanged code (vending-minter, minimum 5000 ustars): a whitelist priced 1000
+is instantiated, `CreateMinter` names it — accepted —, the whitelist opens, and the price a (whitelisted) buyer is
+charged and the `MintPrice` query advertises is 1000 < 5000 = the minimum in force; the mint at 1000 is accepted. -/
+theorem C07_create_whitelist_unchecked_counterexample :
+    let t0 := GENESIS + 100 * HOUR
+    let w := run (init (variantOf 0) t0 { minPrice := ⟨0, 5000⟩, airdrop := ⟨0, 0⟩, feeBps := 1000 })
+      [.newWl ⟨0, 1000⟩ (t0 + HOUR) (t0 + 2 * HOUR), .create 10 ⟨0, 100000⟩ (t0 + 24 * HOUR) none true (some 0),
+       .setTime (t0 + HOUR)]
+    (w.m.map (fun m => (m.wl, currentPrice w m, (queryMintPrice w m).currentPrice))) = some (some 0, ⟨0, 1000⟩, ⟨0, 1000⟩) ∧
+    w.fac.minPrice = ⟨0, 5000⟩ ∧
+    (step w (.mint [⟨0, 1000⟩])).toOption.isSome = true := by
+  decide
+
+/-- … and its denom: the whitelist named at creation may be priced in a denom different from the factory minimum (and
+from the minter's own price): whitelisted buyers then pay 7000 `denom1` while minimum and public price are in ustars -/
+theorem C07_create_whitelist_denom_counterexample :
+    let t0 := GENESIS + 100 * HOUR
+    let w := run (init (variantOf 0) t0 { minPrice := ⟨0, 5000⟩, airdrop := ⟨0, 0⟩, feeBps := 1000 })
+      [.newWl ⟨1, 7000⟩ (t0 + HOUR) (t0 + 2 * HOUR), .create 10 ⟨0, 100000⟩ (t0 + 24 * HOUR) none true (some 0),
+       .setTime (t0 + HOUR)]
+    (w.m.map (fun m => currentPrice w m)) = some ⟨1, 7000⟩ ∧ w.fac.minPrice.denom = 0 ∧
+    (step w (.mint [⟨1, 7000⟩])).toOption.isSome = true := by
+  decide
 
 /-- the same over histories: after ANY sequence of operations (arbitrary senders, amounts, times, governance
 changes of the minimum in between) the next successful price-setting operation respects the minimum in force then -/
@@ -780,6 +817,70 @@ theorem C07_query_fields (w : World) (m : Minter) :
        | some x => if x.active w.now then x.price else m.discount.getD m.price
        | none => m.discount.getD m.price) :=
   ⟨rfl, rfl, rfl, rfl, rfl⟩
+
+/-! ## Frame — which message can change what (used for "any other message" in `Props/C07X.lean`) -/
+
+/-- If a successful step changed the public price, it was the admin's `UpdateMintPrice`; the discount: one of the two
+discount messages or `UpdateMintPrice` (which may only DROP it); the attached whitelist: `SetWhitelist`; the start time:
+`UpdateStartTime`; `LAST_DISCOUNT_TIME`: the two discount messages. Nothing else in the operation set touches them. -/
+theorem C07_price_frame (w w' : World) (op : Op) (m m' : Minter) (hm : w.m = some m) (hm' : w'.m = some m')
+    (hok : step w op = .ok w') :
+    (m'.price ≠ m.price → ∃ pd p, op = .updateMintPrice m.admin pd p) ∧
+    (m'.discount ≠ m.discount →
+      (∃ s pd p, op = .updateDiscount s pd p) ∨ (∃ s pd, op = .removeDiscount s pd) ∨
+      ((∃ s pd p, op = .updateMintPrice s pd p) ∧ m'.discount = none)) ∧
+    (m'.wl ≠ m.wl → ∃ s pd k, op = .setWhitelist s pd k) ∧
+    (m'.start ≠ m.start → ∃ s pd t, op = .updateStart s pd t) ∧
+    (m'.lastDiscount ≠ m.lastDiscount → (∃ s pd p, op = .updateDiscount s pd p) ∨ (∃ s pd, op = .removeDiscount s pd)) := by
+  cases op <;> simp only [step] at hok
+  · simp at hok; subst hok; rw [hm] at hm'; cases hm'; simp
+  · have := newWl_ok hok; subst this; simp at hm'; rw [hm] at hm'; cases hm'; simp
+  · obtain ⟨h, _⟩ := create_ok hok; rw [hm] at h; cases h
+  · rename_i s pd p
+    obtain ⟨m0, hm0, hadm, _, _, h⟩ := ump_ok hok
+    rw [hm] at hm0; cases hm0; subst h; simp [setMinter] at hm'; subst hm'
+    simp [adminOk] at hadm
+    refine ⟨fun _ => ⟨pd, p, by rw [hadm.2]⟩, ?_, by simp, by simp, by simp⟩
+    intro hd
+    refine Or.inr (Or.inr ⟨⟨s, pd, p, rfl⟩, ?_⟩)
+    simp only at hd ⊢
+    unfold keepDiscount at hd ⊢
+    split
+    · split
+      · rfl
+      · rename_i c hc hgt; simp [hc, hgt] at hd
+    · rfl
+  · obtain ⟨m0, hm0, _, _, _, _, _, _, h⟩ := udp_ok hok
+    rw [hm] at hm0; cases hm0; subst h; simp [setMinter] at hm'; subst hm'
+    exact ⟨by simp, fun _ => Or.inl ⟨_, _, _, rfl⟩, by simp, by simp, fun _ => Or.inl ⟨_, _, _, rfl⟩⟩
+  · obtain ⟨m0, hm0, _, _, _, h⟩ := rdp_ok hok
+    rw [hm] at hm0; cases hm0; subst h; simp [setMinter] at hm'; subst hm'
+    exact ⟨by simp, fun _ => Or.inr (Or.inl ⟨_, _, rfl⟩), by simp, by simp, fun _ => Or.inr ⟨_, _, rfl⟩⟩
+  · obtain ⟨m0, x, hm0, _, _, _, _, _, _, _, h⟩ := swl_ok hok
+    rw [hm] at hm0; cases hm0; subst h; simp [setMinter] at hm'; subst hm'
+    exact ⟨by simp, by simp, fun _ => ⟨_, _, _, rfl⟩, by simp, by simp⟩
+  · obtain ⟨m0, hm0, _, _, _, h⟩ := ust_ok hok
+    rw [hm] at hm0; cases hm0; subst h; simp [setMinter] at hm'; subst hm'
+    exact ⟨by simp, by simp, by simp, fun _ => ⟨_, _, _, rfl⟩, by simp⟩
+  · obtain ⟨_, h⟩ := sudoMin_ok hok; subst h; simp at hm'; rw [hm] at hm'; cases hm'; simp
+  · have h := sudoAirdrop_ok hok; subst h; simp at hm'; rw [hm] at hm'; cases hm'; simp
+  · obtain ⟨h, _⟩ := mintOp_ok hok; subst h; rw [hm] at hm'; cases hm'; simp
+
+/-- the factory minimum is moved by governance only (`sudo UpdateParams`), to a native-denom coin -/
+theorem C07_floor_frame (w w' : World) (op : Op) (hok : step w op = .ok w')
+    (hne : w'.fac.minPrice ≠ w.fac.minPrice) : ∃ c, op = .sudoMin c ∧ c.denom = NATIVE ∧ w'.fac.minPrice = c := by
+  cases op <;> simp only [step] at hok
+  · simp at hok; subst hok; simp at hne
+  · have := newWl_ok hok; subst this; simp at hne
+  · obtain ⟨_, _, _, _, _, h⟩ := create_ok hok; subst h; simp [setMinter] at hne
+  · obtain ⟨_, _, _, _, _, h⟩ := ump_ok hok; subst h; simp [setMinter] at hne
+  · obtain ⟨_, _, _, _, _, _, _, _, h⟩ := udp_ok hok; subst h; simp [setMinter] at hne
+  · obtain ⟨_, _, _, _, _, h⟩ := rdp_ok hok; subst h; simp [setMinter] at hne
+  · obtain ⟨_, _, _, _, _, _, _, _, _, _, h⟩ := swl_ok hok; subst h; simp [setMinter] at hne
+  · obtain ⟨_, _, _, _, _, h⟩ := ust_ok hok; subst h; simp [setMinter] at hne
+  · obtain ⟨hd, h⟩ := sudoMin_ok hok; subst h; exact ⟨_, rfl, hd, rfl⟩
+  · have h := sudoAirdrop_ok hok; subst h; simp at hne
+  · obtain ⟨h, _⟩ := mintOp_ok hok; subst h; simp at hne
 
 /-! ## Non-vacuity: the hypotheses above are satisfiable by concrete histories (vending-minter, floor 50 ustars) -/
 
